@@ -69,6 +69,13 @@ void run_str(const Execution &ex) {
     }
 }
 
+int open_fds() {
+    int n = 0;
+    std::error_code ec;
+    for (auto it = fs::directory_iterator("/proc/self/fd", ec); !ec && it != fs::directory_iterator(); it.increment(ec)) ++n;
+    return n;
+}
+
 void run_tree(const Execution &ex) {
     std::string base = ex.cfg.str("dir", "/tmp") + "/t-" + ex.id + "-" + std::to_string(getpid());
     fs::create_directories(base);
@@ -79,9 +86,13 @@ void run_tree(const Execution &ex) {
         std::string full = base + "/" + rel;
         if (kind == "dir") fs::create_directory(full);
         else {
-            std::ofstream o(full, std::ios::binary);
             size_t n = kind == "f0" ? 0 : kind == "f1" ? 1 : 5000;
-            o << std::string(n, 'z');
+            {
+                std::ofstream o(full, std::ios::binary);
+                o << std::string(n, 'z');
+            }
+            // big=1: the 5000-byte files are 3 GiB + 5000 bytes instead (sparse: no blocks are allocated), so that sums pass 2^31 and 2^32
+            if (n == 5000 && ex.cfg.num("big", 0)) fs::resize_file(full, (3ull << 30) + 5000);
         }
         nodes.push_back(st.str("node"));
     }
@@ -120,6 +131,30 @@ void run_tree(const Execution &ex) {
             s += ",\"exc\":" + std::to_string(e.type);
         }
         out().raw(s);
+    }
+    {
+        // descriptors: asking the same questions again and again must not consume more and more of them (a per-call leak
+        // makes every answer wrong once the tree is large enough to exhaust RLIMIT_NOFILE)
+        auto ask_all = [&] {
+            for (auto &node : nodes) {
+                std::string rel = rel_of(node);
+                try {
+                    Path p(rel.empty() ? base : base + "/" + rel);
+                    (void) p.exists();
+                    (void) p.isFile();
+                    (void) p.isDirectory();
+                    (void) p.size();
+                    if (p.isDirectory()) (void) p.listChildren();
+                } catch (const tulz::Exception &) {
+                }
+            }
+        };
+        int f0 = open_fds();
+        ask_all();
+        int f1 = open_fds();
+        ask_all();
+        int f2 = open_fds();
+        out().line("\"e\":\"Fds\",\"f0\":%d,\"f1\":%d,\"f2\":%d", f0, f1, f2);
     }
     {
         Path missing(base + "/no such entry");
